@@ -131,10 +131,10 @@ Definition findvar (e : env) (name : string) (t : list tok) : res (target * list
 
 Definition assign (e : env) (tg : target) (v : val) : env :=
   match tg with
-  | TScal name => mkEnv num (set_s (e_scal num e) name v) (e_arr num e) (e_saved num e)
+  | TScal name => mkEnv num (set_s (e_scal num e) name v) (e_arr num e) (e_saved num e) (e_host num e)
   | TElem name k =>
       match assoc_s (e_arr num e) name with
-      | Some (dims, cells) => mkEnv num (e_scal num e) (set_s (e_arr num e) name (dims, set_z cells k v)) (e_saved num e)
+      | Some (dims, cells) => mkEnv num (e_scal num e) (set_s (e_arr num e) name (dims, set_z cells k v)) (e_saved num e) (e_host num e)
       | None => e
       end
   end.
@@ -200,7 +200,7 @@ Definition cmdput (s : state) (t : list tok) : res state :=
   bind (require Klp t) (fun r1 =>
   bind (realexpr num ops tbl hp efuel e r1) (fun p1 =>
   bind (args_tail num ops tbl hp efuel e (snd p1)) (fun p2 =>
-    Ok (with_t (with_env s (mkEnv num (e_scal num e) (e_arr num e) (set_k (e_saved num e) (fst p2) (fst p1)))) (snd p2))))).
+    Ok (with_t (with_env s (mkEnv num (e_scal num e) (e_arr num e) (set_k (e_saved num e) (fst p2) (fst p1)) (e_host num e))) (snd p2))))).
 
 Definition cmdgoto (s : state) (t : list tok) : res state :=
   bind (intexpr num ops tbl hp efuel (s_env s) t) (fun p =>
@@ -482,7 +482,7 @@ Fixpoint cmddim (f : nat) (s : state) (t : list tok) : res state :=
           | None =>
               bind (require Klp r0) (fun r1 =>
               bind (dim_list (S (List.length r1)) e r1 0) (fun p =>
-                let e' := mkEnv num (e_scal num e) ((name, (fst p, [])) :: e_arr num e) (e_saved num e) in
+                let e' := mkEnv num (e_scal num e) ((name, (fst p, [])) :: e_arr num e) (e_saved num e) (e_host num e) in
                 let s1 := with_env s e' in
                 if iseos (snd p) then Ok (with_t s1 (snd p))
                 else bind (require Kcomma (snd p)) (fun r => if iseos r then Ok (with_t s1 r) else cmddim f' s1 r)))
@@ -601,7 +601,7 @@ Fixpoint compile (lines : list string) (p : program) : res program :=
 
 Definition max_len (p : program) : nat := fold_right (fun l n => Nat.max (List.length (snd l)) n) 0%nat p.
 
-Definition empty_env : env num := mkEnv num [] [] [].
+Definition empty_env : env num := mkEnv num [] [] [] [].
 
 Inductive result :=
  | RDone (outs : list (out num)) (save : option num) (saved : list (list Z * num))
@@ -611,7 +611,7 @@ Inductive result :=
 
 (* compile, then "run": start at the first line with cleared variables, loops and data pointer.
    [saved0] is the PUT/GET store left by earlier programs of the same run. *)
-Definition run_program (fuel : nat) (saved0 : list (list Z * num)) (lines : list string) : result :=
+Definition run_program (fuel : nat) (saved0 : list (list Z * num)) (host : list (string * num)) (lines : list string) : result :=
   match compile lines [] with
   | Err m => RError m
   | Unsup m => RUnsup m
@@ -621,7 +621,7 @@ Definition run_program (fuel : nat) (saved0 : list (list Z * num)) (lines : list
       | [] => RDone [] None saved0
       | (_, ts) :: _ =>
           let ef := (600 + 8 * max_len p)%nat in
-          let s0 := mkState num (mkEnv num [] [] saved0) [] (Some 0%nat) ts false false None [] [] None in
+          let s0 := mkState num (mkEnv num [] [] saved0 host) [] (Some 0%nat) ts false false None [] [] None in
           match run num ops tbl hp p ef fuel s0 with
           | Ok s => RDone (rev (s_out num s)) (s_save num s) (e_saved num (s_env num s))
           | Err m => RError m
